@@ -189,6 +189,8 @@ class FunctionTranslator:
                 for t in node.targets:
                     if isinstance(t, ast.Subscript) and isinstance(t.value, ast.Name):
                         mutated.add(t.value.id)
+                    elif isinstance(t, ast.Subscript) and isinstance(t.value, ast.Subscript) and isinstance(t.value.value, ast.Name):
+                        mutated.add(t.value.value.id)
         alias_targets = set()
         for node in ast.walk(self.fn):
             if isinstance(node, ast.Assign):
@@ -233,7 +235,7 @@ class FunctionTranslator:
                 # a parameter may be mutated only after being rebound to a fresh list, which the
                 # assignment check above enforces for every assignment; but the *initial* value is shared
                 first = self._first_use_is_rebinding(p)
-                if not first:
+                if not first and not self._returned_by_every_return(p):
                     raise Unsupported("%s: parameter %s is mutated in place" % (self.name, p))
         self.mutated = mutated
 
@@ -270,6 +272,24 @@ class FunctionTranslator:
                 covered |= {id(n) for n in ast.walk(st)}
         for n in ast.walk(self.fn):
             if isinstance(n, ast.Name) and n.id == x and id(n) not in covered:
+                return False
+        return True
+
+    def _returned_by_every_return(self, p):
+        """an IN-PLACE function: the parameter is updated and handed back by every `return` (by name, alone or as an item of
+        the returned tuple), it is never rebound, and nothing is stored INTO it except scalars / fresh values through
+        subscripts. The translation returns the updated value; that the caller's own reference sees the update as well is
+        Python's aliasing, which the functional target does not model (the harness observes it)."""
+        rets = [n for n in ast.walk(self.fn) if isinstance(n, ast.Return)]
+        if not rets:
+            return False
+        for r in rets:
+            v = r.value
+            names = [v] if isinstance(v, ast.Name) else (list(v.elts) if isinstance(v, ast.Tuple) else [])
+            if not any(isinstance(x, ast.Name) and x.id == p for x in names):
+                return False
+        for n in ast.walk(self.fn):
+            if isinstance(n, ast.Name) and n.id == p and isinstance(n.ctx, ast.Store):
                 return False
         return True
 
@@ -333,6 +353,8 @@ class FunctionTranslator:
         if isinstance(node, ast.Attribute) and isinstance(node.value, ast.Name) and node.value.id == self.self_name \
                 and self.self_name is not None and isinstance(node.ctx, ast.Load):
             return False, "(pyGetAttr e.%s %s)" % (fld(self.self_name), lean_str(node.attr))
+        if isinstance(node, ast.Attribute) and node.attr == "T" and isinstance(node.ctx, ast.Load) and self.m.numpy:
+            return self.apply("npT", [node.value], scope, assigned)
         if isinstance(node, ast.UnaryOp) and isinstance(node.op, ast.USub):
             if isinstance(node.operand, ast.Constant) and isinstance(node.operand.value, int):
                 return True, "(.int (-%d))" % node.operand.value
@@ -390,6 +412,10 @@ class FunctionTranslator:
                 lo = sl.lower if sl.lower is not None else ast.Constant(value=None)
                 hi = sl.upper if sl.upper is not None else ast.Constant(value=None)
                 return self.apply("pySliceV", [node.value, lo, hi], scope, assigned)
+            if isinstance(sl, ast.Tuple) and len(sl.elts) == 2 and isinstance(sl.elts[0], ast.Slice) and \
+                    sl.elts[0].lower is None and sl.elts[0].upper is None and sl.elts[0].step is None and \
+                    not isinstance(sl.elts[1], ast.Slice):
+                return self.apply("npIndexCols", [node.value, sl.elts[1]], scope, assigned)      # a[:, idx]
             if isinstance(sl, ast.Tuple):
                 if len(sl.elts) != 2 or any(isinstance(x, ast.Slice) for x in sl.elts):
                     raise Unsupported("%s: multi-dimensional subscript shape" % self.name)
@@ -503,6 +529,13 @@ class FunctionTranslator:
             if node.keywords:
                 raise Unsupported("%s: keyword arguments to builtin %s" % (self.name, nm))
             a = node.args
+            if nm == "int" and len(a) == 1 and isinstance(a[0], ast.BinOp) and isinstance(a[0].op, ast.Div) \
+                    and all(isinstance(x, ast.Call) and isinstance(x.func, ast.Name) and self.m.numpy.get(x.func.id) == "log"
+                            and len(x.args) == 1 and not x.keywords for x in (a[0].left, a[0].right)):
+                # int(log(a) / log(b)): the integer logarithm (Py/Value.lean, pyIntLogRatio)
+                return self.apply("pyIntLogRatio", [a[0].left.args[0], a[0].right.args[0]], scope, assigned)
+            if nm in self.m.collections and self.m.collections[nm] == "Counter" and len(a) == 1:
+                return self.apply("pyCounter", a, scope, assigned)
             simple = {"int": ("pyInt", 1), "str": ("pyStr", 1), "len": ("pyLen", 1), "list": ("pyList", 1),
                       "enumerate": ("pyEnumerate", 1), "divmod": ("pyDivmod", 2)}
             if nm in simple and len(a) == simple[nm][1]:
@@ -546,6 +579,11 @@ class FunctionTranslator:
                 # a method of an object handed in by the caller (e.g. `bio_filter.valid(kmer)`): the object is
                 # represented by the table of its answers (Py/Value.lean, `pyCallMethod`)
                 return self.apply_method(f.value, f.attr, node.args, scope, assigned)
+            if f.attr == "reshape" and len(node.args) == 1 and self.m.numpy and (
+                    (isinstance(node.args[0], ast.UnaryOp) and isinstance(node.args[0].op, ast.USub)
+                     and isinstance(node.args[0].operand, ast.Constant) and node.args[0].operand.value == 1)
+                    or (isinstance(node.args[0], ast.Constant) and node.args[0].value == -1)):
+                return self.apply("npFlatten", [f.value], scope, assigned)
             if f.attr == "copy" and not node.args:
                 return self.expr(f.value, scope, assigned)          # values are immutable in the target: a copy is the value
             if f.attr == "astype" and len(node.args) == 1 and isinstance(node.args[0], ast.Name) and node.args[0].id in ("bool", "int"):
@@ -576,6 +614,12 @@ class FunctionTranslator:
         elif real == "union1d":
             if len(a) == 2 and not kws:
                 return self.apply("npUnion1d", a, scope, assigned)
+        elif real in ("max", "unique", "argmax"):
+            if len(a) == 1 and not kws:
+                return self.apply({"max": "npMax", "unique": "npUnique", "argmax": "npArgmax"}[real], a, scope, assigned)
+        elif real == "intersect1d":
+            if len(a) == 2 and not kws:
+                return self.apply("npIntersect1d", a, scope, assigned)
         elif real == "argsort":
             if len(a) == 1 and not kws:
                 return self.apply("npArgsort", a, scope, assigned)
@@ -874,6 +918,16 @@ class FunctionTranslator:
                 st.targets[0].id in self.locals:
             nm = st.targets[0].id
             return "let e : Env := %s\n%s" % (self.assign_names([(nm, ".unbound")]), rest_fn(assigned - {nm})), result_assigned["a"]
+        if isinstance(st, ast.Delete) and len(st.targets) == 1 and isinstance(st.targets[0], ast.Subscript) and \
+                isinstance(st.targets[0].value, ast.Subscript) and isinstance(st.targets[0].value.value, ast.Name) and \
+                not isinstance(st.targets[0].slice, (ast.Slice, ast.Tuple)) and \
+                not isinstance(st.targets[0].value.slice, (ast.Slice, ast.Tuple)):
+            # del x[i][j]: the item x[i] without its j-th element is stored back into x (x owns its items: see _check_aliasing)
+            outer = st.targets[0].value
+            _, t = self.apply("pyDelItem", [outer, st.targets[0].slice], {}, assigned)
+            v = self.tmp()
+            body = "bnd %s fun %s =>\n%s" % (t, v, self.store(outer, v, assigned, rest_fn))
+            return body, result_assigned["a"]
         if isinstance(st, ast.Delete):
             if len(st.targets) != 1 or not isinstance(st.targets[0], ast.Subscript) or \
                     not isinstance(st.targets[0].value, ast.Name) or isinstance(st.targets[0].slice, (ast.Slice, ast.Tuple)):
@@ -1030,12 +1084,16 @@ class ModuleTranslator:
         self.skipped_class_reasons = {}
         self.numpy = {}              # local name -> NumPy name
         self.itertools = {}          # local name -> itertools name
+        self.collections = {}        # local name -> collections name
         self.lean_imports = []
         imported = imported or {}
         for node in self.tree.body:
             if isinstance(node, ast.ImportFrom) and node.module == "itertools":
                 for al in node.names:
                     self.itertools[al.asname or al.name] = al.name
+            elif isinstance(node, ast.ImportFrom) and node.module == "collections":
+                for al in node.names:
+                    self.collections[al.asname or al.name] = al.name
             elif isinstance(node, ast.ImportFrom) and node.module == "numpy":
                 for al in node.names:
                     self.numpy[al.asname or al.name] = al.name
